@@ -836,12 +836,6 @@ ComponentPtr flattenComponent(const ComponentEntityPtr &parent, ComponentPtr &co
         // Take a copy of the imported component which will be used to replace the import defined in this model.
         auto importedComponentCopy = importedComponent->clone();
         importedComponentCopy->setName(component->name());
-        // Adding a child to the copy takes it away from the import placeholder, so always move the first remaining child.
-        while (component->componentCount() > 0) {
-            if (!importedComponentCopy->addComponent(component->component(0))) {
-                break;
-            }
-        }
 
         // Get list of required units from component's variables and math cn elements.
         std::vector<UnitsPtr> requiredUnits = unitsUsed(clonedImportModel, importedComponentCopy);
@@ -867,6 +861,10 @@ ComponentPtr flattenComponent(const ComponentEntityPtr &parent, ComponentPtr &co
 
         // Make a map of component name to component pointer.
         ComponentNameMap newComponentNames = createComponentNamesMap(importedComponentCopy);
+        // The encapsulated children of the import placeholder join the imported component below; they take part in
+        // the renaming as before (a name used by the imported component's own descendants goes to that descendant).
+        ComponentNameMap placeholderComponentNames = createComponentNamesMap(component);
+        newComponentNames.insert(placeholderComponentNames.begin(), placeholderComponentNames.end());
         for (const auto &entry : newComponentNames) {
             std::string originalName = entry.first;
             size_t count = 0;
@@ -935,6 +933,16 @@ ComponentPtr flattenComponent(const ComponentEntityPtr &parent, ComponentPtr &co
             }
             UnitsPtr targetUnits = flatModel->units(finalUnitsName);
             updateUnitsNameUsages(alias.first, finalUnitsName, importedComponentCopy, targetUnits);
+        }
+
+        // The encapsulated children of the import placeholder belong to the importing model: their units and names
+        // are those of the flattened model already, so they join the imported component only once its own units have
+        // been transferred.  Adding a child to the copy takes it away from the placeholder, so always move the first
+        // remaining child.
+        while (component->componentCount() > 0) {
+            if (!importedComponentCopy->addComponent(component->component(0))) {
+                break;
+            }
         }
     }
 
